@@ -9,7 +9,7 @@
   copy|m,sc,n                    -> outcome=<…> final=<ints>        no-region identity copy, 1-D
   pairs|<nsrc>|<ntgt>|<N | one | many:k>
       -> ok <k> | error lenTargets | error lenRegions
-  store|<id:lazy:dep.dep …>|<src:tgt:region:accepted …>
+  store|<id:lazy:dep.dep:computed …>|<src:tgt:region:accepted …>
       -> rejected <k> | lateError | done <w|m> …
 -/
 import CubedModel.Model.Proto
@@ -93,13 +93,14 @@ def handlePairs (parts : List String) : String :=
 def handleStore (parts : List String) : String :=
   match parts with
   | [arrs, prs] =>
-    let tab : List (Nat × Bool × List Nat) := (arrs.splitOn " ").filterMap (fun s =>
+    let tab : List (Nat × Bool × List Nat × Bool) := (arrs.splitOn " ").filterMap (fun s =>
       match s.splitOn ":" with
-      | [i, l, d] => (parseNat? i).map (fun i => (i, l == "1", (d.splitOn ".").filterMap parseNat?))
+      | [i, l, d, c] => (parseNat? i).map (fun i => (i, l == "1", (d.splitOn ".").filterMap parseNat?, c == "1"))
       | _ => none)
     let A : Arrays :=
       { lazy := fun a => match tab.find? (fun e => e.1 == a) with | some e => e.2.1 | none => false
-        deps := fun a => match tab.find? (fun e => e.1 == a) with | some e => e.2.2 | none => [] }
+        deps := fun a => match tab.find? (fun e => e.1 == a) with | some e => e.2.2.1 | none => []
+        computed := fun a => match tab.find? (fun e => e.1 == a) with | some e => e.2.2.2 | none => false }
     let pairs : List Pair := (prs.splitOn " ").filterMap (fun s =>
       match s.splitOn ":" with
       | [a, t, r, ok] =>
